@@ -421,15 +421,16 @@ class Gen:
                                ("prestudy", 1)])
         stm = ["s(%s)." % l for l in labels]
         acs = ["ac(%s,%s)." % (l, self.formula(labels, r.randint(0, 3))) for l in labels]
-        if kind == "attack":      # attack cycles / mutual attacks: several stable models
+        if kind == "attack":      # even attack cycles (2 stable models each), sometimes an odd one (none)
             acs = []
-            for i, l in enumerate(labels):
-                others = [x for x in labels if x != l] or [l]
-                att = r.sample(others, min(len(others), r.randint(1, 2)))
-                f = "neg(%s)" % att[0]
-                for a in att[1:]:
-                    f = "and(%s,neg(%s))" % (f, a)
-                acs.append("ac(%s,%s)." % (l, f))
+            i = 0
+            while i + 1 < len(labels):
+                a, b = labels[i], labels[i + 1]
+                acs += ["ac(%s,neg(%s))." % (a, b), "ac(%s,neg(%s))." % (b, a)]
+                i += 2
+            if i < len(labels):
+                l = labels[i]
+                acs.append("ac(%s,neg(%s))." % (l, l if r.random() < 0.3 or i == 0 else labels[0]))
         if kind == "selfsup":     # self-support and support cycles: grounded all-undecided, stable differs from 2-valued
             acs = ["ac(%s,%s)." % (l, self.pick([l, labels[(i + 1) % len(labels)], "or(%s,neg(%s))" % (l, l)]))
                    for i, l in enumerate(labels)]
@@ -705,6 +706,19 @@ class Run:
         self.emit("= %s %s" % ("written" if e.get("n", 0) >= 1 else "nodoc", summary))
         if self.detail and task == "Parse":
             self.emit("~ ok")
+        if self.detail:
+            # a task that has ended must not be reported as running (asked with the spawning jar's session)
+            name = e["filters"][0].get("name")
+            jar = self.jars.get(jn)
+            if isinstance(name, str) and jar is not None and jar.cookie:
+                st, data, _ev = send(jar, "GET", "/adf/" + name, None)
+                if st == 200:
+                    try:
+                        rt = sorted(canon_task(t) for t in json.loads(data.decode())["running_tasks"])
+                    except (ValueError, KeyError):
+                        rt = ["?"]
+                    self.emit("runcheck %s %s" % (task, ",".join(rt) or "-"))
+                    self.emit("~ ok")
         # the write is a command issued for the spawning request's identity
         fu = e["filters"][0].get("username")
         self.iso.append("c/update/%s/%s" % (self.names.ren(fu) if isinstance(fu, str) else "-",
@@ -1094,6 +1108,38 @@ def run_d9b(rig, out, k, seed):
     return reproduced
 
 
+def run_d9c(rig, out, k, seed):
+    """same root cause, other symptom: the owner renames the account while a solve is in flight; the late
+    write is addressed to (name, OLD user name), matches nothing, and the accepted solve never yields a result"""
+    rig.ensure()
+    rig.stub.reset()
+    out.write("case web-%d mode=d9c seed=%d\n" % (k, seed))
+    run = Run(rig, out, "d9")
+    cred = [("username", "alice"), ("password", PWS[0])]
+    run.http("j0", "POST", "/users/register", cred)
+    run.http("j0", "POST", "/users/login", cred)
+    run.http("j0", "POST", "/adf/add", [("name", "p1"), ("code", CODE_A), ("parsing", "Naive")])
+    h = rig.stub.hold("update", "adf-problems", k=0, key_prefix="acs_per_strategy.stable")
+    run.http("j0", "PUT", "/adf/p1/solve", [("strategy", "Stable")], wait=False)
+    arrived = h.wait_arrived(60)
+    run.emit("taskfin j0 1")
+    run.http("j0", "PUT", "/users/update", [("username", "bob"), ("password", PWS[0])])
+    h.release()
+    run.wait_tasks()
+    status, data = run.http("j0", "GET", "/adf/p1", None)
+    stored = "?"
+    try:
+        stored = json.loads(data.decode())["acs_per_strategy"]["stable"]["type"]
+    except (ValueError, KeyError):
+        pass
+    run.finish(k)
+    # specification: the result of an accepted solve is stored in the problem as long as the problem exists
+    run.emit("stored stable")
+    run.emit("~ " + stored)
+    out.write("# known D9 reproduced=%d held=%d variant=rename-loses-result\n" % (1 if stored == "None" else 0, 1 if arrived else 0))
+    return 1 if stored == "None" else 0
+
+
 def do_run(args, out):
     rig = Rig(args.server_bin)
     try:
@@ -1115,7 +1161,7 @@ def do_run(args, out):
                 njars, hist = g.history(conc=True)
                 run_conc_case(rig, out, k, seed, hist, njars)
             elif args.mode == "d9":
-                (run_d9a if k % 2 == 0 else run_d9b)(rig, out, k, seed)
+                (run_d9a, run_d9b, run_d9c)[k % 3](rig, out, k, seed)
             else:
                 raise SystemExit("unknown mode " + args.mode)
             out.flush()
@@ -1138,8 +1184,8 @@ def do_exec(args, out):
         for k, (head, reqs) in enumerate(cases):
             m = re.search(r"mode=(\S+)", head)
             mode = m.group(1) if m else "seq"
-            if mode in ("d9", "d9b"):
-                (run_d9a if mode == "d9" else run_d9b)(rig, out, k, 0)
+            if mode in ("d9", "d9b", "d9c"):
+                {"d9": run_d9a, "d9b": run_d9b, "d9c": run_d9c}[mode](rig, out, k, 0)
                 continue
             rig.ensure()
             rig.stub.reset()
